@@ -74,7 +74,7 @@ def run(ctx):
     ctx.build_harness()
     selfcheck(ctx)
     obs, verdicts = standard_pipeline(
-        ctx, sub="auth",
+        ctx, checked=True, sub="auth",
         mc=[("MC_Auth", "MC_Auth.cfg" if q else "MC_Auth_deep.cfg", dict(workers=4 if q else 8))],
         gen=[("AuthGen", "Gen_Auth_jwt.cfg" if q else "Gen_Auth_jwt_deep.cfg", dict(workers=1))],
         trace=TRACE, random_n=15000 if q else 200000, post_gen=_post(ctx), nontrivial=_nontrivial,
